@@ -251,8 +251,13 @@ class _Renamer(ast.NodeTransformer):
     return node
 
 
-def _bind(callee, call, is_method):
-  """param name -> argument expression (defaults filled in)."""
+def _bind(callee, call, is_method, lenient=False):
+  """param name -> argument expression (defaults filled in).
+
+  A default that is not a constant cannot be substituted at the call site (it
+  is evaluated once, when the def is executed): NotInlinable, unless the
+  caller only wants to know which argument reaches which parameter
+  (`lenient`: the default expression itself is returned)."""
   a = callee.args
   if a.vararg or a.kwarg or any(isinstance(x, ast.Starred) for x in call.args) \
       or any(k.arg is None for k in call.keywords):
@@ -276,12 +281,12 @@ def _bind(callee, call, is_method):
   allp = a.posonlyargs + a.args
   for p, d in zip(allp[len(allp) - len(a.defaults):], a.defaults):
     if p.arg not in bound:
-      if not isinstance(d, ast.Constant):
+      if not isinstance(d, ast.Constant) and not lenient:
         raise NotInlinable("non-constant default")
       bound[p.arg] = d
   for p, d in zip(a.kwonlyargs, a.kw_defaults):
     if p.arg not in bound:
-      if not isinstance(d, ast.Constant):
+      if not isinstance(d, ast.Constant) and not lenient:
         raise NotInlinable("non-constant default")
       bound[p.arg] = d
   order = [p.arg for p in a.posonlyargs + a.args + a.kwonlyargs]
